@@ -122,6 +122,8 @@ pub enum Op {
     StreamRaw { k: u8, subscription: String, max_out: i64, max_bytes: i64, acks: Vec<String>, mod_ids: Vec<String>, mod_secs: Vec<i32> },
     /// C16/C17: record the complete observable state
     Snapshot,
+    /// open the stall gate: every task held at a stall point continues
+    ReleaseStalls,
     /// C13: one list call with a page token the server did not necessarily issue
     ListTok { kind: u8, p: u8, t: T, size: i32, tok: Tok },
 }
